@@ -150,7 +150,7 @@ def build_topology(g, prop):
         tmpl = rng.choice(["contended_fanout", "contended_fanin"])
     if prop in ("C09", "C17", "C03", "C10") and rng.random() < 0.2:
         tmpl = "combiner"
-    if prop in ("C10", "C15", "C06", "C03", "C20") and rng.random() < 0.1:
+    if prop in ("C10", "C15", "C06", "C03", "C20", "C08", "C09", "C16", "C17", "C18") and rng.random() < 0.1:
         tmpl = "splitter_fanin"
     if g.opts.get("conv_bias") and rng.random() < 0.4:
         tmpl = "conv_fanin"
